@@ -8,8 +8,8 @@ META = {
             "specification: the Receive filter (not from self, pinned network key seated at the claimed index, sender operating, "
             "key in the message = network key), the duplicate rule (beacon: a sender with more than one accepted message is "
             "dropped; tECDSA/inactivity: the first accepted message of a sender wins), verification (same hash, signature "
-            "verifies) and the submission gate (beacon honest+(n-honest)/2, tECDSA quorum, inactivity honest threshold). TLC "
-            "checks exhaustively (all histories of up to 4 messages over the 64-message alphabet, n=4, every threshold) that the "
+            "verifies for the sender's own key - a re-broadcast copy of another member's valid signature bytes does not count) and the submission gate (beacon honest+(n-honest)/2, tECDSA quorum, inactivity honest threshold). TLC "
+            "checks exhaustively (all histories of up to 4 messages over the message alphabet incl. copied signatures, n=4, every threshold) that the "
             "set holds the own signature plus at most one signature per operating member that signed the same hash with its "
             "network key, and that submission happens only at the threshold. TLC-generated histories are fed to the REAL states "
             "with REAL ECDSA-signed messages; stored-message counts after every Receive, the signature map after verification "
@@ -31,10 +31,15 @@ def sample(seed, count):
 
     def msg(acceptable):
         if acceptable:
-            return {"sender": r.choice([2, 3, 4]), "hash": r.choice(["mine", "mine", "mine", "other"]),
-                    "sig": r.choice(["valid", "valid", "valid", "invalid"]), "key": "network", "origin": "member"}
+            sender = r.choice([2, 3, 4])
+            if r.random() < 0.3:
+                # the exact signature bytes of another member (or of the receiver) under the sender's own index and key
+                return {"sender": sender, "hash": r.choice(["mine", "mine", "mine", "other"]), "sig": "copy", "key": "network",
+                        "origin": "member", "src": r.choice([x for x in (1, 2, 3, 4) if x != sender])}
+            return {"sender": sender, "hash": r.choice(["mine", "mine", "mine", "other"]),
+                    "sig": r.choice(["valid", "valid", "valid", "invalid"]), "key": "network", "origin": "member", "src": 0}
         return {"sender": r.randint(1, 4), "hash": r.choice(["mine", "other"]), "sig": r.choice(["valid", "invalid"]),
-                "key": r.choice(["network", "other"]), "origin": r.choice(["member", "foreign"])}
+                "key": r.choice(["network", "other"]), "origin": r.choice(["member", "foreign"]), "src": 0}
 
     out = []
     for _ in range(count):
@@ -58,7 +63,8 @@ def run(ctx):
                 files={"sample.ndjson": smp})
     cases = ctx.read_emitted(g, "supportcases.ndjson")
     gates = ctx.read_emitted(g, "gates.ndjson")
-    if len(cases) < 8000 or len(gates) != 1 or len(gates[0]) < 20:
+    ncopy = sum(1 for c in cases if any(m["sig"] == "copy" for m in c["msgs"]))
+    if len(cases) < 12000 or ncopy < 3000 or len(gates) != 1 or len(gates[0]) < 20:
         ctx.broken("case generation produced %d cases / %d gate sets" % (len(cases), len(gates)))
     multi = sum(1 for c in cases if len(c["firstWins"]) >= 3)
     dup = sum(1 for c in cases if len(c["firstWins"]) != len(c["dropAll"]))
@@ -82,7 +88,7 @@ def run(ctx):
                 ctx.broken("%s replay covered %d of %d cases" % (label, cnt.get(label + ".cases", 0), len(cases)))
     return ctx.finish(
         level="model_checking",
-        rule="every history of <= 2 messages over the 64-message alphabet and a seeded sample of histories of 3-4 messages, for "
+        rule="every history of <= 2 messages over the 88-message alphabet (incl. exact copies of another member's signature bytes, before and after the original) and a seeded sample of histories of 3-4 messages, for "
              "both sets of non-operating members, replayed on the real signing / verification / submission states of the three "
              "protocols with real ECDSA operator keys; compared: stored-message count after every Receive, signature map "
              "(members and exact signature bytes) after verification and as handed to the submitter / chain; gates: every map "
